@@ -129,6 +129,7 @@ type attribution struct {
 	soBaseU  map[string]set
 	baseU    set
 	topBase  set                       // keys seen in bondmachine.v / arch_N.v of machines without shared objects
+	topKind  map[string]set            // kind -> keys seen in bondmachine.v / arch_N.v of machines whose only shared-object kind it is
 	pairOnly map[string]map[[2]string]bool // key -> pairs showing it although neither member alone does
 	cover    map[string]map[[2]string]string // key -> pair -> the member blamed for it ("" = both)
 	pairFamily map[string]string // key -> dynamic family when every pair showing the key lies inside one family
@@ -195,7 +196,7 @@ func allKinds(j Job) []string {
 
 func attribute(jobs []Job, res []Result) *attribution {
 	a := &attribution{jobs: jobs, res: res, single: map[string]map[string]set{}, singleU: map[string]set{}, soBase: map[string]map[string]set{},
-		soBaseU: map[string]set{}, baseU: set{}, topBase: set{}, pairOnly: map[string]map[[2]string]bool{}, cover: map[string]map[[2]string]string{}, pairFamily: map[string]string{}}
+		soBaseU: map[string]set{}, baseU: set{}, topBase: set{}, topKind: map[string]set{}, pairOnly: map[string]map[[2]string]bool{}, cover: map[string]map[[2]string]string{}, pairFamily: map[string]string{}}
 	union := func(m map[string]set, k string, s set) {
 		if m[k] == nil {
 			m[k] = set{}
@@ -214,6 +215,16 @@ func attribute(jobs []Job, res []Result) *attribution {
 			for _, d := range r.Diags {
 				if procIndex(d) < 0 {
 					a.topBase[diagKey(d)] = true
+				}
+			}
+		}
+		if ks := allKinds(j); len(ks) == 1 {
+			for _, d := range r.Diags {
+				if d.File == "bondmachine.v" || reArchF.MatchString(d.File) {
+					if a.topKind[ks[0]] == nil {
+						a.topKind[ks[0]] = set{}
+					}
+					a.topKind[ks[0]][diagKey(d)] = true
 				}
 			}
 		}
@@ -401,6 +412,15 @@ func (a *attribution) components(ji, di int) []string {
 		kinds := allKinds(j)
 		if len(kinds) == 1 {
 			return []string{kinds[0]}
+		}
+		var ks []string
+		for _, kd := range kinds {
+			if a.topKind[kd][k] {
+				ks = append(ks, kd)
+			}
+		}
+		if len(ks) > 0 {
+			return ks
 		}
 		if kd := kindFromIdent(d.Ident); kd != "" {
 			return []string{kd}
